@@ -44,6 +44,11 @@ def Val.getItem : Val → Key → Option Val
   | .tuple l, .idx i => seqGet l i
   | .list l, .idx i => seqGet l i
   | .dict l, .name k => (l.find? (·.1 == k)).map (·.2)
+  | .str s, .idx i =>          -- Python: indexing a string gives a one-character string
+    let cs := s.toList
+    let n : Int := cs.length
+    let j := if i < 0 then i + n else i
+    if j < 0 || j ≥ n then Option.none else (cs[j.toNat]?).map fun c => .str (String.singleton c)
   | _, _ => Option.none
 
 instance : PyVal Val := ⟨Val.none, Val.truthy, Val.getItem⟩
